@@ -237,7 +237,7 @@ WH = mkworld(
         rule("mh", ("q", 0, False), [1], [2]),     # 2  /~q/X-Alpha/v-two
         rule("mh", ("s", 0, False), [2], []),      # 3  /~s/X-Beta/            removal
         rule("mh", ("hq", 2, True), [2], [3]),     # 4  /!~hq x-beta:/X-Beta/v three   (docs: only if absent)
-        rule("mh", ALL, [3], [], file=1),          # 5  /X-Gamma/@file1
+        rule("mh", ("s", 0, False), [3], [], file=1),   # 5  /~s/X-Gamma/@file1
         rule("mh", ALL, [1], [], bad="parts"),     # 6
         rule("mh", ("q", 0, False), [2], [1], bad="filter"),   # 7
         rule("mh", ("m", 2, False), [1], []),      # 8  /~m POST/X-Alpha/      removal for POST
@@ -258,7 +258,7 @@ WB = mkworld(
         rule("mb", ALL, [[2]], [3, 3]),                 # 2  /bb;/cc;cc;        chains with 1, not idempotent
         rule("mb", ("s", 0, False), [[3], [1, 2]], []), # 3  /~s/cc;(?:aa;|bb;)/
         rule("mb", ("bq", 1, False), [[3]], [5]),       # 4  /~bq aa;/cc;/\1;    filter depends on what rule 1 changes
-        rule("mb", ALL, [[4]], [], file=1),             # 5  /d\nd;/@file1       (file: \1; aa;)
+        rule("mb", ("s", 0, False), [[4]], [], file=1), # 5  /~s/d\nd;/@file1    (file: \1; aa;)
         rule("mb", ALL, [[1]], [2], bad="regex"),       # 6
         rule("mb", ALL, [[1]], [2], bad="empty"),       # 7
         rule("mb", ("q", 0, False), [[2]], [7, 6]),     # 8  /~q/bb;/\g<0>;<e9 ff>;
@@ -292,14 +292,69 @@ WM = mkworld(
     fs=[((2,), 1), ((3, 8), 2), ((8,), 3), ((4, 5), 4)],
     fkind={}, sibling=6,
 )
-WM_LISTS = [("mr", (1, 2, 3)), ("mr", (2, 8)), ("ml", (4, 5)), ("ml", (6, 7, 5)), ("ml", (5, 9)), ("mb", (10,)), ("mh", (11,))]
+WM_LISTS = [("mr", (1, 2, 3)), ("ml", (4, 5)), ("ml", (6, 7, 5)), ("ml", (5, 9)), ("mb", (10,)), ("mh", (11,))]
 WM_FLOWS = [flow_t(path=[1, 2], query=True), flow_t(meth=2, host=2, path=[2, 3]), flow_t(path=[1, 9, 4]),
-            flow_t(host=3, path=[3]), flow_t(path=[1, 4, 5], qb=[1]), flow_t(path=[5, 1])]
+            flow_t(host=3, path=[3]), flow_t(path=[1, 4, 5], qb=[1])]
 WM_RESPS = [resp_t(sb=[1, 2])]
 WM_FOPS = [{"f": 1, "present": False, "c": [1, 3]}, {"f": 5, "present": True, "c": [3, 3]}]
 
 
-def _consts(w, lists, flows, resps, fops, early, mset, mfile, mflow, stages=(0, 3, 5)):
+FLOW4 = ["hook", "requestheaders"], ["hook", "request"], ["hook", "responseheaders"], ["hook", "response"]
+
+
+def directed():
+    """Hand-written histories, one per clause / named deviation (deterministic complement of the sampled cover)."""
+    H, B, M = WH, WB, WM
+    rh, rq, sh, rs = (list(x) for x in FLOW4)
+    post = flow_t(meth=2, qh=[(3, 1), (1, 5), (1, 4)])
+    out = [
+        # rules in effect, an older rule's file disappears, a refused update: the surviving rules must still act
+        (H, [["set", "mh", [5, 8]], ["file", 1, False, [4]], ["set", "mh", [1, 6]], ["flow", post], rh]),
+        (B, [["set", "mb", [1, 5, 8]], ["file", 1, False, [5, 1]], ["set", "mb", [2, 6]], ["flow", flow_t(qb=[1, 3, 2, 4])], rh, rq]),
+        # a second accepted update replaces the first one completely
+        (H, [["set", "mh", [1]], ["set", "mh", [3]], ["flow", post], rh, rq, ["respond", WH_RESPS[0]], sh, rs]),
+        (B, [["set", "mb", [1]], ["set", "mb", [2]], ["flow", flow_t(qb=[1, 2])], rh, rq, ["respond", WB_RESPS[0]], sh, rs]),
+        (H, [["set", "mh", [2, 1, 4]], ["set", "mh", []], ["flow", post], rh]),
+        # refused updates of every kind leave the rules alone
+        (H, [["set", "mh", [1, 3]], ["set", "mh", [7]], ["set", "mh", [1, 6]], ["flow", post], rh, rq, ["respond", WH_RESPS[0]], sh, rs]),
+        (B, [["set", "mb", [1, 2]], ["set", "mb", [2, 6]], ["set", "mb", [9]], ["flow", flow_t(qb=[1, 3])], rh, rq, ["respond", WB_RESPS[0]], sh, rs]),
+        # replacement with backslash sequences, on the request and on the response
+        (B, [["set", "mb", [4, 1, 3]], ["flow", flow_t(meth=2, qb=[1, 3, 2, 4])], rh, rq, ["respond", WB_RESPS[0]], sh, rs]),
+        (B, [["set", "mb", [8]], ["flow", flow_t(qb=[2, 2])], rh, rq]),
+        (B, [["set", "mb", [5]], ["flow", flow_t(qb=[4])], rh, rq, ["respond", resp_t(sb=[4, 4])], sh, rs]),
+        # streamed bodies
+        (B, [["set", "mb", [1, 2]], ["flow", flow_t(qb=[], qs=True)], rh, rq]),
+        (B, [["set", "mb", [3]], ["flow", flow_t(qb=[1])], rh, rq, ["respond", resp_t(ss=True)], sh, rs]),
+        # flows the addons must not touch
+        (H, [["set", "mh", [1, 3]], ["flow", flow_t(qh=[(1, 5), (2, 5)], live=False)], rh, rq, ["respond", WH_RESPS[0]], sh, rs]),
+        (B, [["set", "mb", [1, 2]], ["flow", flow_t(qb=[1, 2], err=True)], rh, rq, ["respond", WB_RESPS[0]], sh, rs]),
+        (H, [["set", "mh", [1, 3]], ["flow", post], ["respond", WH_RESPS[0]], rh, rq, sh, rs]),
+        (B, [["set", "mb", [1, 2]], ["flow", flow_t(qb=[1, 2])], rh, ["respond", WB_RESPS[0]], rq, sh, rs]),
+        # map_local answers; body and header rules then act on that response exactly once
+        (M, [["set", "ml", [4, 5]], ["set", "mb", [10]], ["flow", flow_t(path=[1, 2], query=True)], rh, rq, sh, rs]),
+        (M, [["set", "ml", [4, 5]], ["set", "mh", [11]], ["flow", flow_t(path=[1, 2])], rh, rq, sh, rs]),
+        (M, [["set", "ml", [6, 7, 5]], ["flow", flow_t(path=[1, 4, 5], qb=[1])], rh, rq, sh, rs]),
+        (M, [["set", "ml", [5, 6]], ["flow", flow_t(path=[1, 4, 5])], rh, rq, sh, rs]),
+        (M, [["set", "ml", [4, 5]], ["flow", flow_t(path=[1, 9, 4])], rh, rq]),
+        (M, [["set", "ml", [4, 5]], ["flow", flow_t(path=[1, 3])], rh, rq]),          # index.html fallback
+        (M, [["set", "ml", [4, 5]], ["flow", flow_t(path=[1, 5])], rh, rq]),          # 404
+        (M, [["set", "ml", [7]], ["flow", flow_t(host=3, path=[3])], rh, rq]),        # empty suffix
+        (M, [["set", "ml", [6]], ["file", 5, True, [3, 3]], ["flow", flow_t(path=[4])], rh, rq]),   # no caching
+        (M, [["set", "ml", [4, 5]], ["flow", flow_t(path=[1, 2])], ["respond", WM_RESPS[0]], rh, rq, sh, rs]),   # taken
+        (M, [["set", "mr", [1, 2, 3]], ["set", "ml", [4, 5]], ["flow", flow_t(path=[1, 2], query=True)], rh, rq, sh, rs]),
+        (M, [["set", "mr", [1, 2, 3]], ["flow", flow_t(meth=2, host=2, path=[2, 3])], rh, rq]),
+        (M, [["set", "mr", [2]], ["flow", flow_t(meth=2, path=[2, 1, 2])], rh, rq]),  # every occurrence
+    ]
+    r = random.Random(7)
+    for w, ops in out:
+        yield {"world": w, "texts": [render(x, r) for x in w["rules"]], "ops": ops}
+    # rule texts written by hand: separators inside the replacement, other separators, escapes
+    hand = mkworld([rule("mh", ("q", 0, False), [2], [3]), rule("mh", ALL, [1], [4]), rule("mb", ("q", 0, False), [[1]], [7, 6])])
+    yield {"world": hand, "texts": ["=~q=x-beta=v three; q=0.5", ":X-ALPHA:v\\xc3\\xa9\\\\4", ";~q;\\x61a\\x3b;\\\\g<0>;\\xc3\\xa9\\xff;"],
+           "ops": [["set", "mh", [1, 2]], ["set", "mb", [3]], ["flow", flow_t(qh=[(2, 1)], qb=[1, 1])], rh, rq]}
+
+
+def _consts(w, lists, flows, resps, fops, early, mset, mfile, mflow, stages=(0, 3)):
     return {"World": {k: w[k] for k in ("rules", "fs", "files")},
             "OptLists": frozenset((o, tuple(l)) for o, l in lists),
             "Flows": frozenset(tlaval.FrozenDict(f) for f in flows),
@@ -394,15 +449,25 @@ class Check(core.PropertyCheck):
         rng = ctx.rng
         for m, (tag, w, *_rest) in zip(models, self.WORLDS):
             g = m.graph
-            behs = g.edge_cover(rng, max_len=14, tail=3)
-            behs += g.random_walks(rng, 250 if ctx.quick else 3000, 14)
+            behs = g.edge_cover(rng, max_len=16, tail=8)
+            ctx.notes.setdefault("edge_cover_behaviours", {})[tag] = len(behs)
+            if ctx.quick and len(behs) > 450:      # quick: a seeded sample of the cover (thorough replays all of it)
+                behs = rng.sample(behs, 450)
+            behs += g.random_walks(rng, 100 if ctx.quick else 1500, 14)
             for b in behs:
                 texts = [render(r, rng) for r in w["rules"]]
                 yield core.Scenario({"world": w, "texts": texts, "ops": self._ops_of(b)},
                                     predicted=core.predicted_events(b), source="model")
+        for d in directed():
+            yield core.Scenario(d, source="suite")
         r2 = random.Random(ctx.seed + 303)
-        for _ in range(400 if ctx.quick else 6000):
+        for _ in range(350 if ctx.quick else 4000):
             yield core.Scenario(random_scenario(r2), source="random")
+
+    def setup(self, ctx):
+        # the handlers call logging.warning(): without a root handler that would run logging.basicConfig()
+        if not logging.getLogger().handlers:
+            logging.getLogger().addHandler(logging.NullHandler())
 
     def drift_view(self, trace):
         return trace[1:]
